@@ -603,6 +603,144 @@ fn repeatability_sampling(run: &Run, thorough: bool) {
 }
 
 // ---------------------------------------------------------------------------------------------
+// schedules of the validation threads, enumerated at the store seam (sched.rs)
+
+/// Verdict and both sealed headers of a batch application, as one string (computed after the scheduled section).
+fn sched_digest(r: &Option<St>) -> String {
+    match r {
+        None => "rejected".into(),
+        Some(c) => match guard(|| (c.clone().seal(None).header(), c.clone().seal(Some(action())).header())) {
+            Ok((none, some)) => format!("accepted:{}:{}", none.hash(), some.hash()),
+            Err(p) => format!("panicked:{}", p.class()),
+        },
+    }
+}
+
+/// Small batches whose members contend for something (the same coin, the same faucet marker, an output of another member), each
+/// validated on a rayon pool with one worker per transaction under *every* schedule of the workers' tree lookups with at most
+/// `bound` preemptions.  Oracle: the verdict and the resulting headers are those of the 1-thread pool.
+fn contended_sets_under_every_schedule(run: &Run, thorough: bool) {
+    use std::time::Duration;
+    let w = world_mel(NetID::Custom02, 10_000_000, 0);
+    let g = w.genesis.clone().seal(None);
+    let mut u = g.next_unsealed();
+    let mut outs: Vec<melstructs::CoinData> = (0..8).map(|i| out_t(1000 + i as u128, Denom::Mel)).collect();
+    outs.push(out_t(10_000_000 - outs.iter().map(|o| o.value.0).sum::<u128>(), Denom::Mel));
+    let fund = tx_t(TxKind::Normal, vec![melstructs::CoinID::zero_zero()], outs, 0, vec![]);
+    if u.apply_tx(&fund).is_err() {
+        run.outcome("schedules:funding-rejected");
+        return;
+    }
+    let parent = u.seal(None);
+    let st = parent.next_unsealed();
+    let c = |i: u8| fund.output_coinid(i);
+    let spend = |ins: Vec<melstructs::CoinID>, v: u128, tag: u8| tx_t(TxKind::Normal, ins, vec![out_t(v, Denom::Mel)], 0, vec![0xe0, tag]);
+    let r1 = spend(vec![c(0)], 1000, 1);
+    let r2 = spend(vec![c(0)], 1000, 2);
+    let a = spend(vec![c(1)], 1001, 3);
+    let b = spend(vec![a.output_coinid(0)], 1001, 4);
+    let t1 = spend(vec![c(2), c(3)], 2005, 5);
+    let t2 = spend(vec![c(4), c(3)], 2007, 6);
+    let by = spend(vec![c(5)], 1005, 7);
+    let f = tx_t(TxKind::Faucet, vec![], vec![out_t(5, Denom::Mel)], 0, b"sched".to_vec());
+    let mut f2 = f.clone();
+    f2.sigs = vec![bytes::Bytes::from(vec![9u8; 64])];
+    let fs = tx_t(TxKind::Faucet, vec![c(6)], vec![out_t(1006, Denom::Mel), out_t(7, Denom::Mel)], 0, b"sched-spends".to_vec());
+    let rs = spend(vec![c(6)], 1006, 8);
+    let mut sets: Vec<(&str, Vec<Transaction>)> = vec![
+        ("two spenders of one coin", vec![r1.clone(), r2.clone()]),
+        ("one faucet twice (second copy carries a stray signature)", vec![f.clone(), f2.clone()]),
+        ("a payment and the spend of its output", vec![a.clone(), b.clone()]),
+        ("the spend first, then the payment it depends on", vec![b.clone(), a.clone()]),
+        ("two two-input payments sharing their second input", vec![t1.clone(), t2.clone()]),
+        ("a faucet that spends a coin and a rival spender of that coin", vec![fs.clone(), rs.clone()]),
+        ("two independent payments", vec![a.clone(), by.clone()]),
+    ];
+    if thorough {
+        sets.push(("two spenders of one coin around a bystander", vec![r1.clone(), by.clone(), r2.clone()]));
+        sets.push(("one faucet twice around a bystander", vec![f.clone(), by.clone(), f2.clone()]));
+        sets.push(("payment, bystander, spend of the payment's output", vec![a.clone(), by.clone(), b.clone()]));
+        sets.push(("two two-input payments sharing an input, and a bystander", vec![t1.clone(), t2.clone(), by.clone()]));
+    } else {
+        sets.push(("two spenders of one coin around a bystander", vec![r1.clone(), by.clone(), r2.clone()]));
+    }
+    // scheduling keys: the first node of every lookup in the trees the validation phases read
+    let mut keys: Vec<Vec<u8>> = vec![];
+    for s in [&parent, &st.verif_peek()] {
+        for k in [s.raw_coins_smt().root_hash(), s.raw_history_smt().root_hash(), s.raw_pools_smt().root_hash()] {
+            if k != [0u8; 32] && !keys.contains(&k.to_vec()) {
+                keys.push(k.to_vec());
+            }
+        }
+    }
+    let one = rayon::ThreadPoolBuilder::new().num_threads(1).build().unwrap();
+    let tau = Duration::from_micros(1500);
+    let mut rows = vec![];
+    let mut total_execs = 0u64;
+    for (name, txs) in sets {
+        let reference = one.install(|| apply_as_batch(&st, &txs));
+        let threads = txs.len();
+        let bound = if txs.len() == 2 { if thorough { 3 } else { 2 } } else if thorough { 2 } else { 1 };
+        let (st2, txs2) = (st.clone(), txs.clone());
+        let mk = move || -> Box<dyn FnOnce() -> Option<St> + Send + 'static> {
+            let (s, t) = (st2.clone(), txs2.clone());
+            Box::new(move || {
+                let mut c = s;
+                match guard(|| c.apply_tx_batch(&t)) {
+                    Ok(Ok(())) => Some(c),
+                    _ => None,
+                }
+            })
+        };
+        let ref_digest = match &reference {
+            Outcome::Rejected => "rejected".to_string(),
+            Outcome::Panicked(c) => format!("panicked:{}", c),
+            Outcome::Accepted { none, some } => format!("accepted:{}:{}", none.hash(), some.hash()),
+        };
+        let mk_digest = || -> Box<dyn FnOnce() -> String + Send + 'static> {
+            let job = mk();
+            Box::new(move || {
+                // only the batch application runs under the scheduler; the seals behind the digest run after the scheduled
+                // section is over for this worker's purposes (no other worker is active any more)
+                let r = job();
+                crate::sched::ACTIVE.store(false, std::sync::atomic::Ordering::Release);
+                sched_digest(&r)
+            })
+        };
+        let ex = crate::sched::explore(threads, &keys, bound, if thorough { 6000 } else { 700 }, tau, &ref_digest, &mk_digest);
+        total_execs += ex.executions;
+        run.transitions_add(ex.executions);
+        run.validated_add(ex.executions - ex.diverged - ex.timed_out);
+        run.outcome_n(&format!("schedules:{}", if ref_digest.starts_with("accepted") { "accepted-set" } else { "rejected-set" }), ex.executions);
+        if ex.capped {
+            run.cap_hit(&format!("store-seam schedules of [{}]: execution cap reached at preemption bound {:?}", name, ex.preemption_bound_completed));
+        }
+        rows.push(json!({"set": name, "transactions": txs.len(), "workers": threads, "reference": ref_digest.split(':').next().unwrap_or(""), "preemption_bound_completed": ex.preemption_bound_completed, "schedules": ex.executions, "scheduling_points_max": ex.max_points, "distinct_results": ex.distinct_results, "replays_that_diverged": ex.diverged, "timed_out": ex.timed_out}));
+        if let Some((got, trace)) = ex.deviating.first() {
+            run.violation(
+                "C03",
+                format!("verdict-depends-on-schedule/store-seam/{}", if ref_digest.starts_with("accepted") { "1-thread-accepts" } else if got.starts_with("accepted") { "1-thread-rejects-some-schedule-accepts" } else { "other" }),
+                format!("batch [{}] after [genesis[Custom02] ; funding block ; open]: under the schedule {:?} of its {} validation workers (choices at successive tree lookups; {} preemption(s)) the result is {} - on a 1-thread pool it is {}", name, trace.iter().map(|c| c.chosen).collect::<Vec<_>>(), threads, trace.iter().filter(|c| c.preemption).count(), got.split(':').next().unwrap_or(""), ref_digest.split(':').next().unwrap_or("")),
+                json!({"set": name, "txs": txs.iter().map(tx_json).collect::<Vec<_>>(), "workers": threads, "schedule": trace.iter().map(|c| json!({"choices": c.n, "chosen": c.chosen, "worker": c.tid, "key": c.key_idx, "preemption": c.preemption})).collect::<Vec<_>>(), "result": got, "one_thread_result": ref_digest}),
+            );
+        }
+        if ex.timed_out > 0 {
+            run.outcome_n("schedules:execution-timed-out", ex.timed_out);
+        }
+    }
+    run.set(
+        "store_seam_schedules",
+        json!({
+            "kind": "controlled scheduler over the real apply_tx_batch: workers of a rayon pool (one per transaction) park at the first node of every tree lookup (roots of the coin / history / pool trees, read through the harness's own store); every schedule with at most the listed number of preemptions is executed (iterative context bounding); a decision is taken when all workers are parked or nothing has arrived for 1.5 ms (a worker that went idle inside rayon cannot be observed)",
+            "not_scheduling_points": "what a closure does between two lookups (locks, atomics, covenant execution)",
+            "oracle": "verdict and sealed headers equal those of the 1-thread pool",
+            "executions": total_execs,
+            "sets": rows,
+        }),
+    );
+}
+
+// ---------------------------------------------------------------------------------------------
 // "... or on the process that runs it": verdicts of a process that has already validated other things
 
 /// One evaluation of the process-history corner: a single transaction applied as a batch to the corner's open state, or a block
@@ -819,6 +957,8 @@ pub fn run(run: &Run) {
     large_batch_family(run, thorough);
     println!("  [phase] large batches done at {:.1}s", run.elapsed());
     process_history(run, thorough);
+    contended_sets_under_every_schedule(run, thorough);
+    println!("  [phase] store-seam schedules done at {:.1}s", run.elapsed());
     println!("  [phase] process history done at {:.1}s", run.elapsed());
     // the one lock-protected structure that validation threads share (the DOSC inflator table): every interleaving, by loom
     crate::loomrun::inflator_interleavings(run, "C03");
